@@ -89,6 +89,7 @@ func main() {
 		verbose   = flag.Bool("v", false, "verbose")
 		noReplay  = flag.Bool("noreplay", false, "skip native replay")
 		smtlog    = flag.String("smtlog", "", "write SMT log of first worker")
+		replayFrom = flag.String("replay", "", "replay the counterexample stored in this directory natively against -repo")
 	)
 	cpuprof := flag.String("cpuprofile", "", "write cpu profile")
 	flag.Parse()
@@ -151,6 +152,10 @@ func main() {
 		replayOverlay[filepath.Join(*repo, rel)] = p
 		return nil
 	})
+
+	if *replayFrom != "" {
+		os.Exit(replayStored(*repo, *verif, replayOverlay, &cfg, *replayFrom))
+	}
 
 	// ---- load ----
 	pkgSet := map[string]bool{}
@@ -850,6 +855,43 @@ func nativeReplay(repo, verif string, replayOverlay map[string]string, cfg *chec
 		}
 	}
 	return rr
+}
+
+// replayStored re-runs a stored counterexample (cases.json written next to a
+// VIOLATION line) natively against the current /repo. Exit 1 if it still fails.
+func replayStored(repo, verif string, replayOverlay map[string]string, cfg *checkCfg, dir string) int {
+	data, err := os.ReadFile(filepath.Join(dir, "cases.json"))
+	if err != nil {
+		fmt.Println("replay:", err)
+		return 2
+	}
+	var cases []replayCase
+	if err := json.Unmarshal(data, &cases); err != nil {
+		fmt.Println("replay:", err)
+		return 2
+	}
+	var stored sym.Violation
+	if vb, err := os.ReadFile(filepath.Join(dir, "violation.json")); err == nil {
+		json.Unmarshal(vb, &stored)
+	}
+	a := &aggT{}
+	for _, c := range cases {
+		v := stored
+		v.Params, v.Inputs = c.Params, c.Inputs
+		a.violations = append(a.violations, taggedViolation{v: v, harness: c.Harness})
+	}
+	tmp, _ := os.MkdirTemp("", "symgo-replayout-")
+	defer os.RemoveAll(tmp)
+	rr := nativeReplay(repo, verif, replayOverlay, cfg, a, tmp)
+	rc := 0
+	for i, st := range rr.violationStatus {
+		fmt.Printf("replay %s harness=%s label=%s params=%v inputs=%s: %s\n", cfg.Property, cases[i].Harness, stored.Label, cases[i].Params, inputsBrief(cases[i].Inputs), st)
+		if st == "reproduced" {
+			fmt.Printf("VIOLATION property=%s replay=%s\n", cfg.Property, dir)
+			rc = 1
+		}
+	}
+	return rc
 }
 
 func inputsBrief(in []sym.Input) string {
